@@ -70,6 +70,16 @@ class Obligation:
         return s.to_smt2()
 
 
+def root_record(rec):
+    """Allocation is tracked per class hierarchy root (a subclass object is also a base object)."""
+    rec = str(rec)
+    seen = set()
+    while rec in S.RECORDS and S.RECORDS[rec].bases and rec not in seen:
+        seen.add(rec)
+        rec = S.RECORDS[rec].bases[0]
+    return rec
+
+
 class Heap:
     """Field maps: (record, field, part index) -> z3 array Ref -> sort."""
 
@@ -118,8 +128,10 @@ class State:
         self.written_locals = None  # set when discovering loop frames
         self.written_heap = None
         self.written_ghost = None
+        self.written_alloc = None
         self.trace = []            # human-readable path description
         self.pure_memo = {}
+        self.alloc = {}            # record -> Array(Ref,Bool): references allocated so far (only grows)
 
     def clone(self):
         n = State.__new__(State)
@@ -133,14 +145,37 @@ class State:
         n.written_locals = self.written_locals
         n.written_heap = self.written_heap
         n.written_ghost = self.written_ghost
+        n.written_alloc = self.written_alloc
         n.trace = list(self.trace)
         n.pure_memo = dict(self.pure_memo)
+        n.alloc = dict(self.alloc)
         return n
+
+    def alloc_map(self, rec):
+        rec = root_record(rec)
+        if rec not in self.alloc:
+            self.alloc[rec] = z3.Const(f"A_{rec}", z3.ArraySort(T.RefSort, z3.BoolSort()))
+        return self.alloc[rec]
+
+    def allocate(self, rec, ref):
+        """ref is a freshly allocated object of record `rec`."""
+        rec = root_record(rec)
+        a = self.alloc_map(rec)
+        self.assume(z3.Not(z3.Select(a, ref)))
+        self.alloc[rec] = z3.Store(a, ref, z3.BoolVal(True))
+
+    def havoc_alloc(self, rec):
+        rec = root_record(rec)
+        a = self.alloc_map(rec)
+        new = z3.Const(V.fresh_name(f"A_{rec}"), z3.ArraySort(T.RefSort, z3.BoolSort()))
+        r = z3.Const(V.fresh_name("qr"), T.RefSort)
+        self.assume(z3.ForAll([r], z3.Implies(z3.Select(a, r), z3.Select(new, r))))
+        self.alloc[rec] = new
 
     def snapshot(self):
         """Immutable copy used for old(): shares z3 terms, no write tracking."""
         n = self.clone()
-        n.written_locals = n.written_heap = n.written_ghost = None
+        n.written_locals = n.written_heap = n.written_ghost = n.written_alloc = None
         return n
 
     def assume(self, *facts):
